@@ -70,7 +70,7 @@ for e in ENGINES:
         e['serves_properties'] = sorted(set(e['serves_properties']) | {'C06', 'C01'})
 
 check('C05', 'symbolic execution of the MIR of Zerv::apply_component_processing (all process_* / reset / schema-section code) with symbolic start values, symbolic presence and amounts of the by-name flags; z3 compares the resulting variables with the 11-level law',
-      'ResolvedArgs records are built through the derived Default MIR and filled with flags whose presence and u32 amounts are solver variables (windows of 3 levels at a time in quick, 4 in thorough, plus all-bumps / all-overrides), label overrides/bumps, and index-addressed specs (positive, negative, ~n; literals; 15 invalid shapes). The start version has symbolic presence and values for every field. The oracle applies the statement\'s law with z3 If-terms; z3 searches for start values and amounts where the real result differs, where a higher level changes, or where an invalid target is accepted.',
+      'ResolvedArgs records are built through the derived Default MIR and filled with flags whose presence and u32 amounts are solver variables (windows of 3 levels at a time in quick, 4 in thorough, plus all-bumps / all-overrides), label overrides/bumps, and index-addressed specs (positive, negative, ~n; literals; 15 invalid shapes; amounts concrete or symbolic decimal digits: any one-digit amount incl. 0, any ten-digit amount up to u32::MAX). The start version has symbolic presence and values for every field. The oracle applies the statement\'s law with z3 If-terms; z3 searches for start values and amounts where the real result differs, where a higher level changes, or where an invalid target is accepted.',
       'trusted: python models of Option/Vec/IndexMap/HashSet/split_once/parse/sort_by_key; the law oracle; z3. Start values <= 2^40 (u64 overflow belongs to C13); context overrides and template resolution are outside.',
       'DESIGN.md §7 C05')
 for e in ENGINES:
@@ -102,7 +102,7 @@ for e in ENGINES:
         e['serves_properties'] = sorted(set(e['serves_properties']) | {'C12'})
 
 check('C13', 'symbolic execution of the MIR of panic-prone library kernels (byte slicing, chrono formatting with a symbolic format string, infallible conversions, bump additions) with every MIR panic path as the negated property',
-      'PARTIAL. Decided: in-process panic freedom of derive_short_hash (hashes <= 9 chars incl. non-ASCII), the six template functions with symbolic values / lengths and format_timestamp with EVERY format string up to 3 (4) chars (strftime item validity mirrored from the locked chrono), Zerv::from(SemVer) on all identifier lists <= 3 (4) over {epoch, post, dev, alpha, rc, x, number}, and every bump addition with start values up to 2^64-1. Every panic path of the other properties\' executions is reported by those checks. NOT decided: argument-vector parsing, stdout/stderr separation, exit status and git fault sequences (process level).',
+      'PARTIAL. Decided: in-process panic freedom of derive_short_hash (hashes <= 9 chars incl. non-ASCII), the six template functions with symbolic values / lengths and format_timestamp with EVERY format string up to 3 (4) chars (strftime item validity mirrored from the locked chrono), Zerv::from(SemVer) on all identifier lists <= 3 (4) over {epoch, post, dev, alpha, rc, x, number}, and every bump addition with start values up to 2^64-1; flow\'s branch-rule resolution on names with all-digit segments of 1..20 digits; and ANY SINGLE GIT SUB-COMMAND FAILING: get_vcs_data + vcs_data_to_zerv_vars run from MIR against the C02 git stub where the git call with a solver-chosen index (0..40) returns Err - the extraction must return Ok or Err, never panic, and must not write to standard output (print!/println! are modelled as writes to a per-path stdout log; only cli::app prints the result). Counterexamples are replayed at process level: the real zerv binary on a real repository with a git wrapper that fails exactly that call, judged by the statement (status 0 and exactly one stdout line, or non-zero, stderr diagnostic, empty stdout, no panic); the same process-level run with each of the first 14 git calls failing in turn is part of every run as differential validation. Every panic path of the other properties\' executions is reported by those checks. NOT decided: argument-vector parsing (clap), malformed stdin documents (ron), more than one failing git command, git printing malformed output with status 0.',
       'trusted: python std models, the chrono strftime validity model, z3. All findings of this check on the pinned tree were repaired by fix: commits (recorded in known_findings.json).',
       'DESIGN.md §7 C13')
 for e in ENGINES:
@@ -120,7 +120,7 @@ for e in ENGINES:
 
 
 check('C02', 'symbolic execution of the MIR of GitVcs::get_vcs_data (tag selection, distance, facts) and vcs_data_to_zerv_vars with `git` replaced by a nondeterministic stub: tag placement, distance, times, branch and status text are solver variables; z3 decides per path that the reported base tag is admissible under the statement; counterexamples are rebuilt as real git repositories and replayed through the real extraction',
-      'PARTIAL. Decided: zerv\'s side of the extraction. `GitVcs::run_git_command` (the only place a git process is started) is replaced by a stub that answers each sub-command zerv issues (rev-list --topo-order, log --tags --no-walk, tag --points-at, rev-list --count, rev-parse, branch --show-current, log -1 --format=%ct, status --porcelain, show -s --format=%ct, rev-list -n 1) from a symbolic summary of a history: the commits of the topological order (1..3, thorough 1..5), one tagged commit unreachable from HEAD, and for every tag name of six menus (valid, invalid and two-format spellings; numeric vs lexicographic order; pre-releases; post/dev) a solver variable for where it points (absent / each commit / the unreachable commit). The real get_commits_in_topo_order, get_latest_tag, filter_only_valid_tags, parse_with_format_batch / auto-detect majority vote, find_max_version_tag (real Ord), calculate_distance, the fact getters and vcs_data_to_zerv_vars run from MIR. Obligations per path: the reported base tag is a highest-version valid tag (my validity patterns, my comparators) of the first commit of the order that carries a valid tag, tags on the unreachable commit never count, none valid -> no tag and NoTagsFound rather than a version; commit hash, g prefix, commit time, branch (detached -> none), dirty <=> non-empty status, distance, tag commit hash and tag time are passed through exactly into VcsData and into the variables (major/minor/patch from the tag). Any git sub-command without a stub makes the run inconclusive (exit 2), never a pass. Each run also checks the stub\'s contract assumptions (topological order shows children first, --tags --no-walk = tagged commits incl. annotated, --points-at, --count = |anc(HEAD) minus anc(tag)|, show-current, porcelain vs untracked/modified/staged/ignored) and the whole real extraction against an independent oracle on random real repositories with merges, annotated and lightweight tags, side branches and detached HEAD (quick 12+12, thorough 150+240). Not decided: git itself and the object database, repository discovery, shallow clones, git failures, histories beyond the summary bound.',
+      'PARTIAL. Decided: zerv\'s side of the extraction. `GitVcs::run_git_command` (the only place a git process is started) is replaced by a stub that answers each sub-command zerv issues (rev-list --topo-order, log --tags --no-walk, tag --points-at, rev-list --count, rev-parse, branch --show-current, log -1 --format=%ct, status --porcelain, show -s --format=%ct, rev-list -n 1) from a symbolic summary of a history: the commits of the topological order (1..3, thorough 1..5), one tagged commit unreachable from HEAD, and for every tag name of six menus (valid, invalid and two-format spellings; numeric vs lexicographic order; pre-releases; post/dev) a solver variable for where it points (absent / each commit / the unreachable commit). The real get_commits_in_topo_order, get_latest_tag, filter_only_valid_tags, parse_with_format_batch / auto-detect majority vote, find_max_version_tag (real Ord), calculate_distance, the fact getters and vcs_data_to_zerv_vars run from MIR. Obligations per path: the reported base tag is a highest-version valid tag (my validity patterns, my comparators) of the first commit of the order that carries a valid tag, tags on the unreachable commit never count, none valid -> no tag and NoTagsFound rather than a version; commit hash, g prefix, commit time, branch (detached -> none), dirty <=> non-empty status, distance, tag commit hash and tag time are passed through exactly into VcsData and into the variables (major/minor/patch from the tag). Any git sub-command without a stub makes the run inconclusive (exit 2), never a pass. Each run also checks the stub\'s contract assumptions (topological order shows children first, --tags --no-walk = tagged commits incl. annotated, --points-at, --count = |anc(HEAD) minus anc(tag)|, show-current, porcelain vs untracked/modified/staged/ignored) and the whole real extraction against an independent oracle on random real repositories with merges, annotated and lightweight tags, side branches and detached HEAD (quick 12+12, thorough 150+240). Not decided: git itself and the object database, repository discovery, shallow clones, histories beyond the summary bound (a failing git sub-command is C13\'s fault-injection kernel on this same stub; a `tag --sort=<key>` listing is answered in a solver-chosen order).',
       'trusted: the git sub-command contracts coded in harness/c02.py (validated on real repositories every run), the argument that first-valid-in-topological-order is a nearest validly tagged ancestor (DESIGN §7 C02), tracing macros disabled, python std models, z3.',
       'DESIGN.md §7 C02')
 for e in ENGINES:
